@@ -23,10 +23,16 @@ CONFIG = {
     "assumptions": [
         "appended declarations use names that do not collide with existing ones (zzNew…, ZzNew…): a colliding append is an invalid program, not an evolution step",
         "edits on entity parts (data, statuses, events, commands, summaries) go beyond the property's quantifier and are included as extra coverage",
-        "theorem level: all three edit kinds are package-level theorems through Edit.apply and both compilePkg results (C13_append_decl_fresh, "
-        "C13_append_field_pkg, C13_append_field_method_pkg, C13_append_field_topic_pkg, C13_append_option_pkg): a field appended to the own property "
-        "list of a top-level object / oneof, of a method's request / response, of a topic message (all topic types), an option appended to a top-level "
-        "enum that no field of the package refers to by name (the enum's export entry carries its value names); deeper paths (into inline types, nested "
-        "declarations) are covered per container (C13_append_field, _ctx, _nested) and by the stream",
+        "theorem level: package-level theorems through Edit.apply and both compilePkg results for every container the property names, at any depth "
+        "the edit grammar reaches: fields (C13_append_field_pkg, _nested_pkg: nest* / prop* paths into a top-level object / oneof; _method_pkg, "
+        "_method_deep_pkg, _topic_pkg, _topic_deep_pkg), options (C13_append_option_pkg for any top-level enum, referred to or not; _option_nested_pkg, "
+        "_option_method_deep_pkg, _option_topic_deep_pkg for nested and inline enums), declarations (C13_append_decl_fresh), and any sequence of such "
+        "edits (C13_append_seq_pkg); field / declaration theorems assume the newly exported names are new to the package (decidable on the sources), "
+        "option theorems only that both versions compile; NOT covered by theorems: edits of entity parts (stream only) and the link step "
+        "(compileLinked; open finding c13-capture-append:rejected)",
+        "source facts (extract/evolve.go, 15 C13_src_* obligations): the shapes of mapProperties, visitEnumNode, enumBuilder.addValue, "
+        "propertyNode.accept, buildFieldNode, replaceNested*, newRoot / NestPath / NameInPackage and the add* builders are compared textually "
+        "(go/printer rendering of every mention with its control context); a semantically equivalent rewrite of these functions turns the obligation "
+        "red and needs a look at the model",
     ],
 }
